@@ -1,5 +1,5 @@
 """C13 — defining then deleting objects is the identity; the dependency graph stays consistent."""
-import os, subprocess
+import os, subprocess, math
 import cvbuild, cvlib
 from cvlib import fbits, bits_to_f, tok_val, esc
 from cvscen import inj_cv, cfg, pos, tf, num
@@ -244,7 +244,60 @@ def gen(rng, tier):
                                                 # finding (top-level "active" is lost when the reference count returns to 0) shows whenever nothing awake needs them
                                                 "orphaned": sorted(c for c in cvs if c in had and not any(c in use and "timeStepFactor" not in conf_ for (conf_, use) in biases.values()))},
                       "nontrivial": ndel > 0})
+    # an extended-Lagrangian variable (awake every n-th step by its own time-step factor, whether or not a bias needs it) loses its only
+    # bias: from then on its extended coordinate must move as that of a variable no bias acts on — every later integration follows
+    # X' = X + h (V + h F / m), V' = V + h F / m with F = -k (X - x) alone (closed form from the reported state; a force left behind by
+    # the deleted bias shows as a different F)
+    KB = 0.001987191; PI = 3.14159265358979323846
+    for k in range(4 if tier == "quick" else 30):
+        ntsf = rng.choice([2, 3]); dt = rng.choice([0.5, 1.0]); tol = rng.choice([0.2, 0.5]); T = 300.0; tau = 200.0
+        kext = KB * T / (tol * tol); mext = (KB * T * tau * tau) / (4.0 * PI * PI * tol * tol)
+        kb = rng.choice([5.0, 20.0]); cb = rng.uniform(1.0, 2.0)
+        conf = ("colvar {\n name e\n timeStepFactor %d\n width 0.5\n lowerBoundary -8.0\n upperBoundary 8.0\n extendedLagrangian on\n extendedFluctuation %s\n"
+                " extendedTimeConstant %s\n extendedTemp %s\n extendedLangevinDamping 0.0\n outputVelocity on\n"
+                " distanceZ {\n  main { atomNumbers 1 }\n  ref { dummyAtom (0.0, 0.0, 0.0) }\n  axis (0.0, 0.0, 1.0)\n }\n}\n") % (ntsf, num(tol), num(tau), num(T))
+        bconf = "harmonic {\n name hb\n timeStepFactor %d\n colvars e\n forceConstant %s\n centers %s\n}\n" % (ntsf, num(kb), num(cb))
+        lines = ["m.new 1", "M.noclock", "m.opt dt %s" % fbits(dt), cfg(conf), cfg(bconf), "O.objs cvs=e deps=hb:e"]
+        x = rng.uniform(-0.5, 0.5)
+        # (deleted right after a step at which the bias acted — its force is still in the variable's accumulator — or after a sleeping step)
+        tdel = ntsf * rng.randint(2, 4) + (0 if k % 2 == 0 else rng.randint(1, ntsf - 1))
+        nsteps = tdel + ntsf * rng.randint(3, 5) + 1
+        rec = []
+        for t in range(nsteps):
+            x += rng.uniform(-0.02, 0.02)
+            lines.append(pos(0, 0.0, 0.0, x)); lines.append("m.step"); st = len(lines)
+            lines.append("m.cv e v ax"); rec.append((t, st, len(lines), x))
+            if t == tdel:
+                lines.append("o.delbias hb")
+        cases.append({"lines": lines, "meta": {"extdel": {"rec": rec, "tdel": tdel, "n": ntsf, "h": dt * ntsf, "k": kext, "m": mext, "kb": kb, "cb": cb}}, "nontrivial": True})
     return cases
+
+
+def extdel_oracle(e, out):
+    n = e["n"]; h = e["h"]
+    act = [(t, st, ln, x) for (t, st, ln, x) in e["rec"] if t % n == 0]
+    checked = 0
+    for (t0, s0, l0, x0), (t1, s1, l1, x1) in zip(act, act[1:]):
+        rc = vals(out, s1, "rc")
+        if rc is not None and rc[0] != 0:
+            return ["step %d of the extended-Lagrangian variable ends with an error" % t1]
+        X0 = vals(out, l0, "x"); V0 = vals(out, l0, "v"); X1 = vals(out, l1, "x"); V1 = vals(out, l1, "v")
+        if None in (X0, V0, X1, V1):
+            return ["the variable was not reported at steps %d / %d (deleting its bias must not switch it off: its own time-step factor wakes it)" % (t0, t1)]
+        # (the variable reports the state left by the previous integration: the one of step t0 acts on it with the position of step t0)
+        F = -e["k"] * (X0[0] - x0)
+        if t0 <= e["tdel"]:
+            F += -(e["kb"] / 0.25) * (X0[0] - e["cb"])        # forceConstant is given for a width (0.5) of the variable
+        V = V0[0] + h * F / e["m"]; X = X0[0] + h * V
+        tolx = 1e-9 * max(1.0, abs(X)); tolv = 1e-9 * max(abs(V), abs(V0[0]), h * abs(F) / e["m"], 1e-12) + 1e-15
+        if abs(X1[0] - X) > tolx or abs(V1[0] - V) > tolv:
+            when = "after its only bias was deleted at step %d" % e["tdel"] if t0 > e["tdel"] else "while its bias was alive"
+            return ["extended coordinate at step %d (%s): %.12g with velocity %.6g, the closed form from the state of step %d gives %.12g and %.6g "
+                    "(k=%.6g m=%.6g h=%.3g: the force on the extended coordinate is not the one of the objects that exist)" % (t1, when, X1[0], V1[0], t0, X, V, e["k"], e["m"], h)]
+        checked += 1
+    if checked < 3:
+        return ["too few active steps were compared (%d)" % checked]
+    return []
 
 
 def distribution(cases):
@@ -264,6 +317,8 @@ def vals(out, ln, tag):
 
 def oracle(case, out):
     m = case["meta"]; viol = []
+    if "extdel" in m:
+        return extdel_oracle(m["extdel"], out)
     # translator cross-check
     if "d.tables" in case["lines"][2:8]:
         got = sorted(tuple(tok_val(t)[1] for t in v) for (ln, tag, occ), v in out.items() if tag == "feat")
